@@ -33,6 +33,7 @@ type Slice struct {
 	arr      *[]Value // backing array (shared); nil for nil slice
 	off      int
 	len, cap int
+	opq      *SymStr // []byte(itoa(t)): opaque decimal rendering; only pass-through, comparison and string() allowed
 }
 
 type Iface struct {
@@ -60,7 +61,10 @@ type Ref struct {
 }
 
 // OpaqueFloat is float64(symbolic int): only pass-through is supported.
-type OpaqueFloat struct{ src *Term }
+type OpaqueFloat struct {
+	src  *Term
+	bits bool // src is the IEEE bit pattern (else: an integer converted to float)
+}
 
 // unsafe.Pointer wrapper
 type UPtr struct{ p Value }
@@ -250,9 +254,18 @@ func load(addr *Value) Value { return copyVal(*addr) }
 
 // ---- slices ----
 
-func (s Slice) at(i int) *Value { return &(*s.arr)[s.off+i] }
-func (s Slice) isNil() bool     { return s.arr == nil }
+func (s Slice) at(i int) *Value {
+	s.chkOpq()
+	return &(*s.arr)[s.off+i]
+}
+func (s Slice) isNil() bool { return s.arr == nil && s.opq == nil }
+func (s Slice) chkOpq() {
+	if s.opq != nil {
+		unsup("inspection of opaque numeric byte slice []byte(itoa(%s))", s.opq.opq.Short())
+	}
+}
 func (s Slice) elems() []Value {
+	s.chkOpq()
 	if s.arr == nil {
 		return nil
 	}
@@ -317,7 +330,16 @@ func mkStr(b []*Term) Value {
 	return sb.String()
 }
 
+// sliceAsStr views a []byte value as a string value (opaque-aware).
+func sliceAsStr(s Slice) Value {
+	if s.opq != nil {
+		return s.opq
+	}
+	return mkStr(bytesOfSlice(s))
+}
+
 func bytesOfSlice(s Slice) []*Term {
+	s.chkOpq()
 	out := make([]*Term, s.len)
 	for i, e := range s.elems() {
 		out[i] = e.(*Term)
